@@ -151,6 +151,10 @@ def unpack_attributes(attributes, namespace, default, restricted_namespace):
                     ns = default
         else:
             ns = default
+        # Several attributes may share one expanded name (``lang`` and
+        # ``xml:lang`` on an element without a namespace): the mapping
+        # holds one entry for them, each attribute knows its own.
+        attribute['namespace'] = ns
         namespaced[ns, name] = value
 
     return namespaced
